@@ -643,6 +643,40 @@ func init() {
 		m.assume(Eq(App("uf.toLower", s.S, r), r))
 		return r
 	})
+	add("io.LimitReader", func(m *Machine, _ *Thread, _ *Frame, a []Value, _ ssa.Value) Value {
+		// a reader over at most the first n bytes of what the underlying reader holds
+		data, set := m.readerSource(a[0])
+		set(m.strLit(""))
+		n := a[1].(*Term)
+		var lim *Term
+		if data.S.K == KString {
+			ni := intOfBV(n)
+			lim = Ite(intLE(strLenInt(data), ni), data, mk("str.substr", SString, data, IntC(0), ni))
+		} else {
+			lim = Ite(BVCmp("bvule", m.strLen(data), n), data, App("uf.prefixN", SBytes, data, n))
+		}
+		p := m.newReaderObj(lim, "io.LimitedReader")
+		return IfaceV{T: m.W.ReaderIfaceType(), V: p}
+	})
+	add("(*encoding/base64.Encoding).Decode", func(m *Machine, _ *Thread, _ *Frame, a []Value, _ ssa.Value) Value {
+		// Decode(dst, src): writes the decoded bytes into the caller's buffer; panics when it is too short
+		if m.Domain == DomAlgebra {
+			panic(m.unsupported("base64 Decode in the algebra domain"))
+		}
+		src := m.needString(m.termOf(a[2]), "base64.Decode")
+		dstLen := m.lenOf(a[1]).(*Term)
+		ok := App("uf.b64ok", SBool, src)
+		if !m.branch("b64ok", ok) {
+			return TupleV{BVC(64, 0), m.opaqueError("base64.CorruptInputError")}
+		}
+		dec := App("uf.b64dec", SString, src)
+		fits := intLE(strLenInt(dec), intOfBV(dstLen))
+		if !m.branch("b64.decode.fits", fits) {
+			panic(m.goPanic("base64 Decode: destination buffer too short (index out of range)"))
+		}
+		m.weak = appendUniq(m.weak, []string{"base64 Decode into a caller buffer (contents not tracked)"}, 20)
+		return TupleV{strLen64(dec), IfaceV{}}
+	})
 	add("bytes.NewReader", func(m *Machine, _ *Thread, _ *Frame, a []Value, _ ssa.Value) Value {
 		return m.newReaderObj(m.termOf(a[0]), "bytes.Reader")
 	})
